@@ -18,4 +18,15 @@ theorem C11_json_guard :
     (ctorReads.filter (·.1 == "makeJson")).map (·.2) = ["json", "tagcase"] := by
   decide
 
+/-- C11 / C01: every spelling of a field of the shadow struct `_json_T` in constructor.tmpl — its declaration, the keys of
+    the literal in MarshalJSON, the `data.<f>` assignments, the `<recv>_.<f>` reads of UnmarshalJSON — is produced by the
+    same template action, so the references name the declared field whatever the Go field is called (table regenerated
+    from the template on every run; before bf10dd1 the three references made from the exported-field list were `{{.}}`
+    and an exported field such as `User_name` did not compile). All four kinds of place occur. -/
+theorem C11_shadow_spelling :
+    Facts.jsonShadowRefs.all (fun r => r.2 == "{{pascalCase .}}") = true ∧
+    ["decl", "literal-key", "data-field", "decoded-field"].all (fun c => Facts.jsonShadowRefs.any (fun r => r.1 == c)) = true ∧
+    (Facts.jsonShadowRefs.filter (fun r => r.1 == "decl")).length = 1 := by
+  decide
+
 end ShootVerif.NewFacts
